@@ -31,7 +31,7 @@ func init() {
 	})
 }
 
-var c13states = []string{"idle", "handshake-open-and-queued", "dying-at-the-same-moment", "disconnecting-at-the-same-moment", "blocked-in-send", "blocked-in-connack", "clean-session-queue-full"}
+var c13states = []string{"idle", "handshake-open-and-queued", "dying-at-the-same-moment", "disconnecting-at-the-same-moment", "blocked-in-send", "blocked-in-connack", "clean-session-queue-full", "two-handshakes-open"}
 
 func takeover(x *explore.X, pr c13params) {
 	state := pr.States[vrt.Choose(len(pr.States), "incumbent-state")]
@@ -40,6 +40,9 @@ func takeover(x *explore.X, pr c13params) {
 	vrt.Quiet(true) // set-up phase: default schedule only
 	w := env.NewWorld(x, func(m *broker.MemoryBackend) {
 		m.ClientInflightMessages = 1
+		if state == "two-handshakes-open" {
+			m.ClientInflightMessages = 3 // two messages in flight and room for one more: the raced one is sent to the newcomer next to the inherited ones
+		}
 		if state == "clean-session-queue-full" {
 			m.SessionQueueSize = 1
 		}
@@ -78,7 +81,7 @@ func takeover(x *explore.X, pr c13params) {
 		helper.Pub("t0", "z0", 0, false)
 		w.Run(obs, helper, inc)
 	}
-	if state == "handshake-open-and-queued" || state == "clean-session-queue-full" {
+	if state == "handshake-open-and-queued" || state == "clean-session-queue-full" || state == "two-handshakes-open" {
 		// (with a queue capacity of 1 the queue is now full: the concurrent publish below has to wait for room or for the
 		// incumbent going away)
 		helper.Pub("t", "m1", 1, false)
@@ -242,6 +245,18 @@ func takeover(x *explore.X, pr c13params) {
 	}
 	// session continuity: with unclean newcomers only, nothing queued or in flight is lost or offered twice as new
 	// (a clean incumbent's session legitimately ends with it)
+	// in-flight state passes to the newcomer intact: nothing the survivor has not acknowledged yet shares its packet id
+	// with another message (an id handed out twice overwrites the older message in the session)
+	inflight := map[packet.ID]string{}
+	for _, d := range surv.Got {
+		if d.QOS == 0 {
+			continue
+		}
+		if other, ok := inflight[d.ID]; ok && other != d.Payload {
+			x.Failf("session-intact", "packet-id-reused-in-flight:"+state, "the surviving connection %s was sent %q and %q under the same packet id %d while neither was acknowledged", surv.Name, other, d.Payload, d.ID)
+		}
+		inflight[d.ID] = d.Payload
+	}
 	if allUnclean && state != "clean-session-queue-full" {
 		tags = append(tags, "m3")
 		for round := 0; round < 8; round++ {
@@ -282,7 +297,7 @@ func takeover(x *explore.X, pr c13params) {
 
 func runC13(r *report.Report) {
 	r.Assume("2-3 newcomers (quantifier: 2-8) present the incumbent's client id concurrently, as autonomous threads; clean/unclean mixes are all enumerated; a helper publishes towards the id at the same time",
-		"incumbent states: idle; outbound QoS 1 handshake open with one more message queued behind a window of 1 (= parked on an exhausted window); dying by EOF at the same moment; sending DISCONNECT at the same moment; blocked in a send (the peer does not read); mid-handshake (Setup done, CONNACK write blocked); clean session with a full queue (a concurrent publish waits on it)",
+		"incumbent states: idle; outbound QoS 1 handshake open with one more message queued behind a window of 1 (= parked on an exhausted window); dying by EOF at the same moment; sending DISCONNECT at the same moment; blocked in a send (the peer does not read); mid-handshake (Setup done, CONNACK write blocked); clean session with a full queue (a concurrent publish waits on it); two outbound handshakes open behind a window of 3",
 		"kill timeout (5 s) is a manual timer that is never fired: a take-over that could only be ended by it shows up as a Setup call in progress at quiescence and is a violation",
 		"schedules in which the concurrent publish reaches the full queue of the still connected, not yet displaced incumbent are the documented MemoryBackend limitation (a connected client that does not drain its queue blocks the backend) and are not judged; once the incumbent's connection has been closed the publish must get through",
 		"session continuity is compared only when every newcomer is unclean (a clean newcomer legitimately discards the session)")
